@@ -171,6 +171,55 @@ def h_blocking(ctx):
     _judge(ctx, vs, expected, "blocking-async.", content)
 
 
+# ------------------------------------------------------------------ K3: context walks with symbolic node kinds
+ATTR_TEXTS = ("#[test]", "#[cfg(test)]", "#[inline]", "#[cfg(not(test))]", "#[derive(Debug)]", "#[tokio::test]")
+
+
+def h_context_kinds(ctx):
+    from vsym.nodes import Duck
+    from vsym.pathex import If
+    from vsym.symkind import SKind, SymSet, kind_table
+    import src.linters.clone_abuse.rust_analyzer as clone_mod
+    from src.analyzers import rust_context
+    table = kind_table("rust")
+    depth = 3
+    kinds = [SKind(ctx, f"ancestor{i}_kind", table) for i in range(depth)]
+    has_attr = [ctx.flag(f"ancestor{i}_has_preceding_sibling") for i in range(depth)]
+    attr_kinds = [SKind(ctx, f"sibling{i}_kind", table) if has_attr[i] else None for i in range(depth)]
+    attr_texts = [ctx.pick(f"sibling{i}_text", ATTR_TEXTS) if has_attr[i] else None for i in range(depth)]
+    call = Duck("call_expression", "x.clone()", start=(9, 8))
+    below, below_sibs = call, []
+    for i in range(depth + 1):      # ancestor0 is the innermost; the extra round builds the file root
+        kind = kinds[i] if i < depth else "source_file"
+        anc = Duck(kind, "", below_sibs + [below])      # attribute items are preceding siblings inside the parent
+        below = anc
+        below_sibs = [Duck(attr_kinds[i], attr_texts[i])] if (i < depth and has_attr[i]) else []
+    # ---- test context
+    got_test = rust_context.is_inside_test(call)
+
+    def attr_is(i, texts):
+        if not has_attr[i]:
+            return False
+        return And(attr_kinds[i] == "attribute_item", attr_texts[i] in texts)
+    want_test = Or(*[Or(And(kinds[i] == "function_item", attr_is(i, ("#[test]", "#[tokio::test]", "#[cfg(test)]"))),
+                        And(kinds[i] == "mod_item", attr_is(i, ("#[cfg(test)]",)))) for i in range(depth)])
+    for i in range(depth):     # attribute spellings the documentation does not speak about, on the item kinds that matter
+        if has_attr[i] and attr_texts[i] in ("#[tokio::test]",):
+            pass
+    ctx.cover("in-test" if got_test else "not-in-test")
+    ctx.require("test-context-iff-enclosing-test-fn-or-cfg-test-mod", Eq(got_test, want_test),
+                attrs=[t for t in attr_texts if t])
+    # ---- loop context (clone-abuse)
+    saved = clone_mod._LOOP_NODE_TYPES
+    try:
+        clone_mod._LOOP_NODE_TYPES = SymSet(saved)
+        got_loop = clone_mod.RustCloneAnalyzer()._is_inside_loop(call)
+    finally:
+        clone_mod._LOOP_NODE_TYPES = saved
+    want_loop = Or(*[k.is_one_of(("for_expression", "while_expression", "loop_expression")) for k in kinds])
+    ctx.require("loop-context-iff-an-ancestor-is-a-loop", Eq(got_loop, want_loop))
+
+
 ASSUMPTIONS = (
     "test code = inside a #[test] function or a #[cfg(test)] module (at any nesting depth), as documented",
     "short forms (fs::read_to_string, thread::sleep, TcpStream::connect) are flagged as the std forms with or without the matching `use` line (documentation lists both)",
@@ -195,4 +244,10 @@ def obligations(tier):
                       "rust_context.is_inside_test/is_async_function", "BlockingAsyncConfig.from_dict"],
            bounds="allow_in_tests and the three detect_* switches symbolic booleans; forked: %d contexts x %d call forms x async/sync x wrapper (none/spawn_blocking/block_in_place) x with/without use lines" % (len(CONTEXTS), len(BLOCKING_CALLS)),
            **common),
+        Ob(name="K3-context-walks-symbolic-kinds", engine="pathex", harness=h_context_kinds,
+           functions=["rust_context.is_inside_test/_is_test_context/has_test_attribute/has_cfg_test_attribute", "RustCloneAnalyzer._is_inside_loop"],
+           bounds="3 ancestors whose kinds (and the kinds of their preceding siblings) are solver variables over all 355 kinds of the Rust grammar (symbolic to the end); "
+                  "forked: presence of a preceding sibling and its text from 6 attribute spellings",
+           timeout=300, workers=14, must_cover=("in-test", "not-in-test"),
+           stubs=("duck-typed tree-sitter nodes", "SymSet wrapper around clone_abuse._LOOP_NODE_TYPES")),
     ]
